@@ -264,7 +264,16 @@ fn stitched_case(run: &Run, case: u64) {
     let sb = sandbox("c16s");
     let mut spec = Snapshot::new();
     spec.insert("/".into(), Node::dir());
-    let dname = *rng.pick(&["a", "m", "é"]);
+    // the directory that will become a symlink sits at the root or one or two levels down
+    let depth = (case % 3) as usize;
+    let prefix = ["", "/outer", "/o/p"][depth];
+    let mut up = String::new();
+    for part in prefix.split('/').filter(|p| !p.is_empty()) {
+        up = format!("{up}/{part}");
+        spec.insert(up.clone(), Node::dir());
+    }
+    let dname = format!("{prefix}/{}", *rng.pick(&["a", "m", "é"]));
+    let dname = &dname[1..];
     spec.insert(format!("/{dname}"), Node::dir());
     for f in ["x", "f", "new"] {
         spec.insert(format!("/{dname}/{f}"), Node::file(gen_content(&mut rng, 20)));
@@ -283,7 +292,8 @@ fn stitched_case(run: &Run, case: u64) {
     // the directory becomes a symlink to a directory outside the destination
     let old = spec.clone();
     spec.retain(|p, _| !tree::is_under(p, &format!("/{dname}")));
-    let target = *rng.pick(&["../../outside/dir", "../../outside/dir/sub"]);
+    let target = format!("{}{}", "../".repeat(depth), *rng.pick(&["../../outside/dir", "../../outside/dir/sub"]));
+    let target = target.as_str();
     spec.insert(format!("/{dname}"), Node::symlink(target));
     tree::sync_to_disk(Some(&old), &spec, &sb.src).unwrap();
     // trace, then kill at every point
